@@ -32,6 +32,48 @@ fn main() {
         println!("{}", json!({"t": "done", "n": 4}));
         return;
     }
+    if args.get(1).map(|s| s.as_str()) == Some("--proxy-env") {
+        // C11, rustls build: what the environment says about proxies does not depend on the TLS
+        // backend the crate was built with (a valid https:// proxy value is used like an http:// one)
+        let mut v: Vec<(String, String)> = Vec::new();
+        let mut n = 0;
+        let vars = ["http_proxy", "HTTP_PROXY", "https_proxy", "HTTPS_PROXY", "all_proxy", "ALL_PROXY", "no_proxy", "NO_PROXY"];
+        for (var, value, url, want) in [
+            ("https_proxy", "https://ps.test:3129/", "https://o.test/", Some("https://ps.test:3129/")),
+            ("HTTPS_PROXY", "https://ps.test:3129/", "https://o.test/", Some("https://ps.test:3129/")),
+            ("http_proxy", "https://ph.test:3128/", "http://o.test/", Some("https://ph.test:3128/")),
+            ("ALL_PROXY", "https://pa.test/", "https://o.test/", Some("https://pa.test/")),
+            ("all_proxy", "HTTPS://pa.test:1/", "http://o.test/", Some("https://pa.test:1/")),
+            ("https_proxy", "http://ps.test:3129/", "https://o.test/", Some("http://ps.test:3129/")),
+            ("https_proxy", "https://ps.test:3129/", "http://o.test/", None),
+        ] {
+            n += 1;
+            for k in vars {
+                std::env::remove_var(k);
+            }
+            std::env::set_var(var, value);
+            let got = attohttpc::ProxySettings::from_env().for_url(&url.parse().unwrap()).map(|u| u.as_str().to_string());
+            if got.as_deref() != want {
+                v.push(("C11:env:rustls-build".to_string(), format!("built with the rustls backend, {var}={value}: the proxy for {url} is {got:?}, expected {want:?}")));
+            }
+        }
+        // the scheme-specific variable wins over ALL_PROXY
+        n += 1;
+        for k in vars {
+            std::env::remove_var(k);
+        }
+        std::env::set_var("all_proxy", "http://pa.test:3128/");
+        std::env::set_var("https_proxy", "https://ps.test:3129/");
+        let got = attohttpc::ProxySettings::from_env().for_url(&"https://o.test/".parse().unwrap()).map(|u| u.as_str().to_string());
+        if got.as_deref() != Some("https://ps.test:3129/") {
+            v.push(("C11:env:rustls-build".to_string(), format!("built with the rustls backend, all_proxy=http://pa.test:3128/ and https_proxy=https://ps.test:3129/: the proxy for https://o.test/ is {got:?}")));
+        }
+        for (sig, what) in &v {
+            println!("{}", json!({"t": "v", "sig": sig, "what": what, "case": {"engine": "c11", "rustls_env": true}, "rank": 0}));
+        }
+        println!("{}", json!({"t": "done", "n": n}));
+        return;
+    }
     if args.get(1).map(|s| s.as_str()) == Some("--wrong-key") {
         let v = wrong_key_cells();
         println!("wrong-key cells: {v:?}");
